@@ -146,3 +146,13 @@ def generic_path_leaf(d0, d1):
     p = first_diff(d0, d1) or '.'
     p = re.sub(r'\[\d+\]', '', p)
     return p.rsplit('.', 1)[-1].split('#')[0] or 'root'
+
+
+def loosen(d):
+    """Rewrites a dump so that an OrderedDict and a plain dict with the same items are indistinguishable (the
+    comparison dict.__eq__ makes between the two): ('odict', items...) -> ('dict', sorted items...)."""
+    if isinstance(d, tuple):
+        if d and d[0] == 'odict':
+            return ('dict',) + tuple(sorted((loosen(x) for x in d[1:]), key=repr))
+        return tuple(loosen(x) for x in d)
+    return d
